@@ -1,27 +1,35 @@
 #!/usr/bin/env python3
 """mutation_run.py <mutants.jsonl> <out.jsonl> [jobs]: for every single-point mutant (cmd/mutgen) build both modules and
 run the pinned test suite on a scratch copy of /repo's HEAD; records compile-fail / killed / survived. Development aid:
-the survivors are then given to the checks (tools/mutation_check.sh) to see what the rules report that the tests do not."""
+the survivors are then given to the checks (tools/mutation_check.py) to see what the rules report that the tests do not.
+Resumable (ids already in <out.jsonl> are skipped). Uses its own build cache (MUT_GOCACHE, default /var/tmp/mut-gocache),
+built with -trimpath so that scratch directories share compiled packages, and empties it when it passes MUT_CACHE_GB."""
 import json, os, subprocess, sys, tempfile, shutil, multiprocessing
 
-ENV = dict(os.environ, GOFLAGS="-mod=mod", GOPROXY="off", GOSUMDB="off", GOTOOLCHAIN="local")
+CACHE = os.environ.get("MUT_GOCACHE", "/var/tmp/mut-gocache")
+LIMIT = int(os.environ.get("MUT_CACHE_GB", "25")) * (1 << 30)
+ENV = dict(os.environ, GOFLAGS="-mod=mod -trimpath", GOPROXY="off", GOSUMDB="off", GOTOOLCHAIN="local", GOCACHE=CACHE)
 
 def run(m):
-    d = tempfile.mkdtemp(prefix="mut-", dir="/tmp")
+    d = tempfile.mkdtemp(prefix="mut-", dir="/var/tmp")
     try:
         subprocess.run("git -C /repo archive HEAD | tar -x -C %s" % d, shell=True, check=True)
         p = os.path.join(d, m["file"])
         b = open(p, "rb").read()
         b = b[:m["start"]] + m["repl"].encode() + b[m["end"]:]
         open(p, "wb").write(b)
-        r = subprocess.run("go build ./... && (cd client && go build ./...)", shell=True, cwd=d, env=ENV, capture_output=True, timeout=600)
+        r = subprocess.run("go build ./... && (cd client && go build ./...)", shell=True, cwd=d, env=ENV, capture_output=True, timeout=900)
         if r.returncode != 0:
+            if b"no space left" in r.stderr.lower():
+                return dict(m, result="error", how="disk full")
             return dict(m, result="nocompile")
         try:
-            r = subprocess.run("go vet ./pkg/... >/dev/null 2>&1; go test -vet=off -count=1 ./pkg/... && (cd client && go test -vet=off -count=1 ./...)", shell=True, cwd=d, env=ENV, capture_output=True, timeout=300)
+            r = subprocess.run("go test -vet=off -count=1 ./pkg/... && (cd client && go test -vet=off -count=1 ./...)", shell=True, cwd=d, env=ENV, capture_output=True, timeout=400)
         except subprocess.TimeoutExpired:
             return dict(m, result="killed", how="timeout")
         if r.returncode != 0:
+            if b"no space left" in (r.stderr + r.stdout).lower():
+                return dict(m, result="error", how="disk full")
             return dict(m, result="killed")
         return dict(m, result="survived")
     except Exception as e:
@@ -29,10 +37,27 @@ def run(m):
     finally:
         shutil.rmtree(d, ignore_errors=True)
 
+def cache_size():
+    try:
+        return int(subprocess.run(["du", "-sb", CACHE], capture_output=True, text=True).stdout.split()[0])
+    except Exception:
+        return 0
+
 if __name__ == "__main__":
-    muts = [json.loads(l) for l in open(sys.argv[1])]
-    jobs = int(sys.argv[3]) if len(sys.argv) > 3 else 12
-    with multiprocessing.Pool(jobs) as pool, open(sys.argv[2], "w") as out:
-        for res in pool.imap_unordered(run, muts):
-            out.write(json.dumps(res) + "\n")
-            out.flush()
+    done = set()
+    if os.path.exists(sys.argv[2]):
+        for l in open(sys.argv[2]):
+            r = json.loads(l)
+            if r.get("result") != "error":
+                done.add(r["id"])
+    muts = [m for m in (json.loads(l) for l in open(sys.argv[1])) if m["id"] not in done]
+    jobs = int(sys.argv[3]) if len(sys.argv) > 3 else 10
+    batch = 60
+    with open(sys.argv[2], "a") as out:
+        for i in range(0, len(muts), batch):
+            if cache_size() > LIMIT:
+                subprocess.run(["go", "clean", "-cache"], env=ENV)
+            with multiprocessing.Pool(jobs) as pool:
+                for res in pool.imap_unordered(run, muts[i:i + batch]):
+                    out.write(json.dumps(res) + "\n")
+                    out.flush()
